@@ -8,7 +8,7 @@ use crate::mon::c01::{HistCfg, run_history};
 use crate::Ctx;
 
 pub fn histories(ctx: &mut Ctx) {
-    let nh = ctx.by_tier(12, 90);
+    let nh = ctx.by_tier(12, 400);
     let steps = ctx.by_tier(150, 500);
     let mut rng = ctx.rng(0xC03);
     for h in 0..nh {
